@@ -181,6 +181,17 @@ def oracle (rest : List String) : String :=
       let bad := qs.filter fun q => stopRequested log && (startsAfterStop q log > 1 || !(exitFinal q log))
       if bad.isEmpty then "true" else s!"false more-than-one-task-started-after-stop-in-queues-{showNats bad}"
     | _, _ => "bad-op"
+  | "terminated" :: args =>
+    -- after the stop request every worker, given its few remaining steps and its handler's return, has exited
+    match (kv? "q" args).bind natList?, (kv? "ev" args).bind trace? with
+    | some qs, some log =>
+      let bad := qs.filter fun q => !(exited q log)
+      if bad.isEmpty then "true" else s!"false workers-still-alive-after-stop-in-queues-{showNats bad}"
+    | _, _ => "bad-op"
+  | "waitreturns" :: args =>
+    match kv? "exited" args, kv? "early" args with
+    | some e, some r => if e == r then "true" else s!"false every-worker-exited={e}-but-WaitStopWithTimeout-returned-early={r}"
+    | _, _ => "bad-op"
   | "stopped" :: args =>
     -- WaitStopWithTimeout returned before its timeout => every queue worker had exited
     match (kv? "q" args).bind natList?, (kv? "ev" args).bind trace? with
